@@ -276,11 +276,16 @@ func (a *Agent) gatherCandidatesInternal(ctx context.Context) {
 	// UpdateOptions(WithUrls) replaces the URL list inside the task loop: take the
 	// snapshot there instead of reading it from the gatherer goroutines.
 	var urls []*stun.URI
+	var ufrag string
 	if err := a.loop.Run(a.loop, func(context.Context) { //nolint:contextcheck
 		urls = a.urls
+		ufrag = a.localUfrag
 	}); err != nil {
 		return
 	}
+	// Restart replaces the local ufrag inside the task loop as well: the gatherers of this
+	// cycle use the value it started with.
+	ctx = context.WithValue(ctx, gatheringUfragKey{}, ufrag)
 
 	var wg sync.WaitGroup
 	for _, t := range a.candidateTypes {
@@ -305,6 +310,17 @@ func (a *Agent) gatherCandidatesInternal(ctx context.Context) {
 
 	// Block until all STUN and TURN URLs have been gathered (or timed out)
 	wg.Wait()
+}
+
+type gatheringUfragKey struct{}
+
+// gatheringUfrag returns the local ufrag of the gathering cycle ctx belongs to.
+func (a *Agent) gatheringUfrag(ctx context.Context) string {
+	if ufrag, ok := ctx.Value(gatheringUfragKey{}).(string); ok {
+		return ufrag
+	}
+
+	return a.localUfrag
 }
 
 func (a *Agent) gatherServerReflexiveCandidates(
@@ -418,20 +434,20 @@ func (a *Agent) gatherCandidatesLocal(ctx context.Context, networkTypes []Networ
 					// Handle ICE TCP passive mode
 					var muxConns []net.PacketConn
 					if multi, ok := a.tcpMux.(AllConnsGetter); ok {
-						a.log.Debugf("GetAllConns by ufrag: %s", a.localUfrag)
+						a.log.Debugf("GetAllConns by ufrag: %s", a.gatheringUfrag(ctx))
 						// Note: this is missing zone for IPv6 by just grabbing the IP slice
-						muxConns, err = multi.GetAllConns(a.localUfrag, mappedIP.Is6(), addr.AsSlice())
+						muxConns, err = multi.GetAllConns(a.gatheringUfrag(ctx), mappedIP.Is6(), addr.AsSlice())
 						if err != nil {
-							a.log.Warnf("Failed to get all TCP connections by ufrag: %s %s %s", network, addr, a.localUfrag)
+							a.log.Warnf("Failed to get all TCP connections by ufrag: %s %s %s", network, addr, a.gatheringUfrag(ctx))
 
 							continue
 						}
 					} else {
-						a.log.Debugf("GetConn by ufrag: %s", a.localUfrag)
+						a.log.Debugf("GetConn by ufrag: %s", a.gatheringUfrag(ctx))
 						// Note: this is missing zone for IPv6 by just grabbing the IP slice
-						conn, err := a.tcpMux.GetConnByUfrag(a.localUfrag, mappedIP.Is6(), addr.AsSlice())
+						conn, err := a.tcpMux.GetConnByUfrag(a.gatheringUfrag(ctx), mappedIP.Is6(), addr.AsSlice())
 						if err != nil {
-							a.log.Warnf("Failed to get TCP connections by ufrag: %s %s %s", network, addr, a.localUfrag)
+							a.log.Warnf("Failed to get TCP connections by ufrag: %s %s %s", network, addr, a.gatheringUfrag(ctx))
 
 							continue
 						}
@@ -447,7 +463,7 @@ func (a *Agent) gatherCandidatesLocal(ctx context.Context, networkTypes []Networ
 								conn,
 								a.log,
 								"Failed to get port of connection from TCPMux: %s %s %s",
-								network, addr, a.localUfrag,
+								network, addr, a.gatheringUfrag(ctx),
 							)
 						}
 					}
@@ -473,7 +489,7 @@ func (a *Agent) gatherCandidatesLocal(ctx context.Context, networkTypes []Networ
 					if udpConn, ok := conn.LocalAddr().(*net.UDPAddr); ok {
 						conns = append(conns, connAndPort{conn, udpConn.Port})
 					} else {
-						a.log.Warnf("Failed to get port of UDPAddr from ListenUDPInPortRange: %s %s %s", network, addr, a.localUfrag)
+						a.log.Warnf("Failed to get port of UDPAddr from ListenUDPInPortRange: %s %s %s", network, addr, a.gatheringUfrag(ctx))
 
 						continue
 					}
@@ -621,7 +637,7 @@ func (a *Agent) gatherCandidatesLocalUDPMux(ctx context.Context) error { //nolin
 				continue
 			}
 
-			conn, err := a.udpMux.GetConn(a.localUfrag, udpAddr)
+			conn, err := a.udpMux.GetConn(a.gatheringUfrag(ctx), udpAddr)
 			if err != nil {
 				return err
 			}
@@ -812,7 +828,7 @@ func (a *Agent) gatherCandidatesSrflxUDPMux(ctx context.Context, urls []*stun.UR
 						return
 					}
 
-					conn, err := a.udpMuxSrflx.GetConnForURL(a.localUfrag, url.String(), localAddr)
+					conn, err := a.udpMuxSrflx.GetConnForURL(a.gatheringUfrag(ctx), url.String(), localAddr)
 					if err != nil {
 						a.log.Warnf("Failed to find connection in UDPMuxSrflx %s %s: %v", network, url, err)
 
